@@ -1,6 +1,8 @@
 (* C30 — proofs.  Part A: lengths of the C29 serialisations = the arithmetic size function.
    Part B: the estimator (byte level) = the closed forms.  Part C: DER length bound.
-   Part D: the signed transaction of the builder.  Part E: domination => estimate >= actual. *)
+   Part D: the signed transaction of the builder.  Part E: domination => estimate >= actual.
+   Part F: corollaries, witnesses, the executable spec.  Part G: the judge's [covered] implies the
+   matching premise of Part E.  Part H: exactness for exactly used slots and maximal signatures. *)
 From Coq Require Import ZArith NArith List Bool Lia Permutation.
 From Coq Require Import ZifyBool ZifyNat ZifyN.
 From KV Require Import Common.Verdict Model.C29 Model.C30.
@@ -792,3 +794,344 @@ Lemma spec_ok_sound c e r :
   spec_ok c = true -> covered c = true -> c_est c = VOk e -> c_real c = Some r ->
   r_vsize r <= e /\ vsize_of_weight (r_base r * 3 + r_total r) <= e.
 Proof. unfold spec_ok. intros H C E R. rewrite E, R, C in H. lia. Qed.
+
+(* ------------------------------------------------------------------ Part G: [covered] => matching *)
+(* what a case says about the real transaction.  A group [c] of the case stands for [ci_mult c]
+   real inputs of the kind [ci_kind c] (class, witness flag, redeem length, push length of the
+   redeem script); a pair (m, n) for m outputs with an n-byte script.  Signature and key
+   lengths are not constrained.  The wallet's input order is not the estimator's, hence the
+   permutations in [describes]. *)
+Definition cin_rel (c : cin) (i : rin) : Prop := rkind_of (ri_kind i) = rkind_of_c (ci_kind c).
+Definition cout_rel (p : N * N) (o : txout) : Prop := out_len o = snd p.
+Inductive groups_of {A B} (R : A -> B -> Prop) (mult : A -> N) : list A -> list B -> Prop :=
+| groups_nil : groups_of R mult [] []
+| groups_cons a g l r : len g = mult a -> Forall (R a) g -> groups_of R mult l r ->
+                        groups_of R mult (a :: l) (g ++ r).
+Inductive items_describe : list item -> list rin -> list txout -> Prop :=
+| describe_nil : items_describe [] [] []
+| describe_cons it gi go l ri ro :
+    groups_of cin_rel ci_mult (it_ins it) gi -> groups_of cout_rel fst (it_outs it) go ->
+    items_describe l ri ro -> items_describe (it :: l) (gi ++ ri) (go ++ ro).
+Definition describes (items : list item) (ins : list rin) (outs : list txout) : Prop :=
+  exists ins' outs', Permutation ins ins' /\ Permutation outs outs' /\ items_describe items ins' outs'.
+
+(* the witness flag of every real input is the announced one (for the deposit-sweep cases,
+   whose coverage check ignores it: no legacy P2SH deposit among the swept ones) *)
+Definition ck_wit (k : ckind) : bool := match k with CPkh w => w | CSh w _ _ => w end.
+Definition flags_agree (it : item) : bool :=
+  match op_in_shape (it_op it) with
+  | Some s => forallb (fun c => Bool.eqb (ish_wit s) (ck_wit (ci_kind c))) (it_ins it)
+  | None => true
+  end.
+
+Lemma groups_len {A B} (R : A -> B -> Prop) mult l r :
+  groups_of R mult l r -> len r = sumN_map mult l.
+Proof.
+  induction 1 as [|a g l r Hl Hg G IH]; [reflexivity|].
+  rewrite len_app. unfold sumN_map in *. cbn [fold_right]. lia.
+Qed.
+Lemma groups_all {A B} (R : A -> B -> Prop) mult (p : A -> bool) (Q : B -> Prop) l r :
+  groups_of R mult l r -> forallb p l = true -> (forall a b, p a = true -> R a b -> Q b) -> Forall Q r.
+Proof.
+  intros G. induction G as [|a g l r Hl Hg G IH]; intros Hp HQ; [constructor|].
+  cbn [forallb] in Hp. apply andb_prop in Hp. destruct Hp as (Pa & Pl).
+  apply Forall_app. split; [|auto]. eapply Forall_impl; [|exact Hg]. intros b Rb. now apply (HQ a).
+Qed.
+Lemma groups_nil_inv {A B} (R : A -> B -> Prop) mult r : groups_of R mult [] r -> r = [].
+Proof. inversion 1. reflexivity. Qed.
+
+Lemma cds2_redeem_push redeem : (canonical_data_size redeem =? 2) = (redeem_push redeem =? 2).
+Proof. destruct redeem; reflexivity. Qed.
+Lemma c_in_covered_sound s c i :
+  cin_rel c i -> c_in_covered s (ci_kind c) = true -> in_covered s (ri_kind i) = true.
+Proof.
+  unfold cin_rel. destruct s as [w|w l], (ci_kind c) as [w1|w1 rl f], (ri_kind i) as [w2|w2 redeem];
+    cbn [rkind_of rkind_of_c c_in_covered in_covered]; intros E H; try discriminate.
+  - injection E as E1. subst. exact H.
+  - injection E as E1 E2 E3. subst. rewrite cds2_redeem_push, E3. exact H.
+Qed.
+Lemma sweep_covered_flags s k :
+  c_in_covered_sweep s k = true -> Bool.eqb (ish_wit s) (ck_wit k) = true -> c_in_covered s k = true.
+Proof.
+  destruct s as [w|w l], k as [w'|w' rl f]; cbn [c_in_covered_sweep c_in_covered ish_wit ck_wit]; try discriminate.
+  - auto.
+  - intros H F. rewrite F. apply andb_prop in H. destruct H as (H1 & H2). rewrite H2. cbn [andb].
+    replace (l =? 1) with false by lia. cbn [andb negb]. apply orb_true_r.
+Qed.
+
+Lemma op_ishapes_repeat o s : op_in_shape o = Some s -> op_ishapes o = repeat s (N.to_nat (op_count o)).
+Proof.
+  destruct o as [c w|c l w|c w|c w]; cbn [op_in_shape op_ishapes op_count]; try discriminate.
+  - intros E. injection E as <-. unfold op_count, times, count_N. now rewrite Z_N_nat.
+  - destruct (l <? 0)%Z; [discriminate|]. intros E. injection E as <-. unfold op_count, times, count_N. now rewrite Z_N_nat.
+Qed.
+Lemma op_oshapes_repeat o s : op_out_shape o = Some s -> op_oshapes o = repeat s (N.to_nat (op_count o)).
+Proof.
+  destruct o as [c w|c l w|c w|c w]; cbn [op_out_shape op_oshapes op_count]; try discriminate;
+    intros E; injection E as <-; unfold op_count, times, count_N; now rewrite Z_N_nat.
+Qed.
+Lemma repeat_cover {A B} (R : A -> B -> Prop) (s : A) (g : list B) n :
+  Forall (R s) g -> (length g <= n)%nat ->
+  exists ss rest, ss ++ rest = repeat s n /\ Forall2 R ss g.
+Proof.
+  intros F L. exists (repeat s (length g)), (repeat s (n - length g)). split.
+  - rewrite <- repeat_app. f_equal. lia.
+  - clear L. induction F; cbn [length repeat]; constructor; auto.
+Qed.
+
+Lemma item_in_matching o cins couts gi :
+  item_covered {| it_op := o; it_ins := cins; it_outs := couts |} = true ->
+  groups_of cin_rel ci_mult cins gi ->
+  exists ss rest, ss ++ rest = op_ishapes o /\ Forall2 (fun s i => in_covered s (ri_kind i) = true) ss gi.
+Proof.
+  unfold item_covered, item_covered_with. cbn [it_op it_ins it_outs]. intros C G.
+  apply andb_prop in C. destruct C as (C & _). apply andb_prop in C. destruct C as (Cn & Ci).
+  pose proof (groups_len _ _ _ _ G) as L.
+  destruct cins as [|c0 cs].
+  - apply groups_nil_inv in G. subst gi. exists [], (op_ishapes o). split; [reflexivity|constructor].
+  - destruct (op_in_shape o) as [s|] eqn:Es; [|discriminate].
+    rewrite (op_ishapes_repeat _ _ Es). apply repeat_cover.
+    + eapply groups_all; [exact G|exact Ci|]. intros c i Hc Hr. cbv beta in Hc. now apply (c_in_covered_sound s c i).
+    + unfold len in L. lia.
+Qed.
+Lemma item_out_matching o cins couts go :
+  item_covered {| it_op := o; it_ins := cins; it_outs := couts |} = true ->
+  groups_of cout_rel fst couts go ->
+  exists os rest, os ++ rest = op_oshapes o /\ Forall2 (fun s x => out_covered s x = true) os go.
+Proof.
+  unfold item_covered, item_covered_with. cbn [it_op it_ins it_outs]. intros C G.
+  apply andb_prop in C. destruct C as (C & Co). apply andb_prop in C. destruct C as (Cn & _).
+  pose proof (groups_len _ _ _ _ G) as L.
+  destruct couts as [|c0 cs].
+  - apply groups_nil_inv in G. subst go. exists [], (op_oshapes o). split; [reflexivity|constructor].
+  - destruct (op_out_shape o) as [s|] eqn:Es; [|discriminate].
+    rewrite (op_oshapes_repeat _ _ Es). apply repeat_cover.
+    + eapply groups_all; [exact G|exact Co|]. intros p x Hp Hr. cbv beta in Hp.
+      unfold cout_rel, out_len in Hr. unfold out_covered. lia.
+    + unfold len in L. lia.
+Qed.
+
+Lemma matching_app {A B} (R : A -> B -> Prop) ss1 rest1 sh1 ss2 rest2 sh2 g1 g2 :
+  ss1 ++ rest1 = sh1 -> Forall2 R ss1 g1 ->
+  Permutation (ss2 ++ rest2) sh2 -> Forall2 R ss2 g2 ->
+  Permutation ((ss1 ++ ss2) ++ (rest1 ++ rest2)) (sh1 ++ sh2) /\ Forall2 R (ss1 ++ ss2) (g1 ++ g2).
+Proof.
+  intros <- F1 P F2. split; [|now apply Forall2_app].
+  rewrite <- !app_assoc. apply Permutation_app_head.
+  etransitivity; [apply Permutation_app_swap_app|]. now apply Permutation_app_head.
+Qed.
+
+Lemma items_matching items ri ro :
+  items_describe items ri ro -> forallb item_covered items = true ->
+  (exists ss rest, Permutation (ss ++ rest) (shape_ins (map it_op items))
+                   /\ Forall2 (fun s i => in_covered s (ri_kind i) = true) ss ri) /\
+  (exists os rest, Permutation (os ++ rest) (shape_outs (map it_op items))
+                   /\ Forall2 (fun s o => out_covered s o = true) os ro).
+Proof.
+  induction 1 as [|it gi go l ri ro Gi Go D IH]; intros C.
+  - split; exists [], []; split; constructor.
+  - cbn [forallb] in C. apply andb_prop in C. destruct C as (Ci & Cl).
+    destruct (IH Cl) as ((ss2 & r2 & P2 & F2) & (os2 & q2 & Q2 & G2)).
+    destruct it as [o cins couts]. cbn [it_ins it_outs] in Gi, Go.
+    destruct (item_in_matching _ _ _ _ Ci Gi) as (ss1 & r1 & E1 & F1).
+    destruct (item_out_matching _ _ _ _ Ci Go) as (os1 & q1 & E1' & G1).
+    cbn [map it_op shape_ins shape_outs flat_map]. split.
+    + exists (ss1 ++ ss2), (r1 ++ r2). now apply matching_app.
+    + exists (os1 ++ os2), (q1 ++ q2). now apply matching_app.
+Qed.
+
+Lemma item_covered_weaken cov it :
+  item_covered_with cov it = true ->
+  (forall s c, op_in_shape (it_op it) = Some s -> In c (it_ins it) -> cov s (ci_kind c) = true ->
+               c_in_covered s (ci_kind c) = true) ->
+  item_covered it = true.
+Proof.
+  unfold item_covered, item_covered_with. intros C W.
+  apply andb_prop in C. destruct C as (C & Co). apply andb_prop in C. destruct C as (Cn & Ci).
+  rewrite Cn, Co. cbn [andb]. rewrite andb_true_r.
+  destruct (it_ins it) as [|c0 cs] eqn:E; [reflexivity|].
+  destruct (op_in_shape (it_op it)) as [s|]; [|discriminate].
+  rewrite forallb_forall in *. intros c Hc. apply (W s c eq_refl Hc). now apply Ci.
+Qed.
+Lemma covered_items c :
+  covered c = true -> (is_sweep (c_caller c) = true -> forallb flags_agree (c_items c) = true) ->
+  forallb item_covered (c_items c) = true.
+Proof.
+  unfold covered. destruct (is_sweep (c_caller c)); intros C F; [|exact C].
+  specialize (F eq_refl). rewrite forallb_forall in *. intros it Hit.
+  apply (item_covered_weaken c_in_covered_sweep); [now apply C|].
+  intros s k Es Hk Hc. apply sweep_covered_flags; [assumption|].
+  specialize (F it Hit). unfold flags_agree in F. rewrite Es in F. rewrite forallb_forall in F. now apply F.
+Qed.
+
+Theorem covered_sound c ins outs :
+  covered c = true -> (is_sweep (c_caller c) = true -> forallb flags_agree (c_items c) = true) ->
+  describes (c_items c) ins outs ->
+  (exists ss rest, Permutation (ss ++ rest) (shape_ins (map it_op (c_items c)))
+                   /\ Forall2 (fun s i => in_covered s (ri_kind i) = true) ss ins) /\
+  (exists os rest, Permutation (os ++ rest) (shape_outs (map it_op (c_items c)))
+                   /\ Forall2 (fun s o => out_covered s o = true) os outs).
+Proof.
+  intros C F (ins' & outs' & Pi & Po & D).
+  destruct (items_matching _ _ _ D (covered_items c C F)) as ((ss & r & P & Fi) & (os & q & Q & Fo)).
+  split.
+  - apply Forall2_flip in Fi.
+    destruct (Permutation_Forall2 (Permutation_sym Pi) Fi) as (ss' & Ps & Fs).
+    exists ss', r. split; [|now apply Forall2_flip in Fs].
+    etransitivity; [|exact P]. apply Permutation_app_tail. now apply Permutation_sym.
+  - apply Forall2_flip in Fo.
+    destruct (Permutation_Forall2 (Permutation_sym Po) Fo) as (os' & Ps & Fs).
+    exists os', q. split; [|now apply Forall2_flip in Fs].
+    etransitivity; [|exact Q]. apply Permutation_app_tail. now apply Permutation_sym.
+Qed.
+
+Corollary covered_estimate_ge_actual c ins outs T e :
+  covered c = true -> (is_sweep (c_caller c) = true -> forallb flags_agree (c_items c) = true) ->
+  describes (c_items c) ins outs ->
+  estimate (map it_op (c_items c)) = VOk e -> build ins outs = Some T ->
+  vsize T <= e.
+Proof.
+  intros C F D He Hb. destruct (covered_sound c ins outs C F D) as (Mi & Mo).
+  exact (estimate_ge_actual _ _ _ _ _ He Hb Mi Mo).
+Qed.
+
+(* the premises of [covered_estimate_ge_actual] are satisfiable: a case of two identical P2WPKH
+   inputs given as ONE group of multiplicity 2 (signed with a low and with a high S) and one
+   output *)
+Definition ex_ins : list rin := [mk_rin (KPkh true) r33 s_low32; mk_rin (KPkh true) r33 s_high32].
+Definition ex_case : case :=
+  {| c_items := [ {| it_op := OPkhIn 2 true;
+                     it_ins := [ {| ci_kind := CPkh true; ci_sl := 72; ci_pl := 33; ci_mult := 2 |} ];
+                     it_outs := [] |};
+                  {| it_op := OPkhOut 1 true; it_ins := []; it_outs := [(1, 22)] |} ];
+     c_caller := None; c_est := VOk 0; c_real := None; c_sigs := [] |}.
+Example covered_premises_satisfiable :
+  covered ex_case = true /\ is_sweep (c_caller ex_case) = false /\
+  describes (c_items ex_case) ex_ins [out_of 22] /\
+  exists T e, build ex_ins [out_of 22] = Some T /\ estimate (map it_op (c_items ex_case)) = VOk e /\ (vsize T <=? e) = true.
+Proof.
+  split; [reflexivity|]. split; [reflexivity|]. split.
+  - exists ex_ins, [out_of 22]. split; [apply Permutation_refl|]. split; [apply Permutation_refl|].
+    cbn [c_items ex_case].
+    apply (describe_cons _ ex_ins [] _ [] [out_of 22]).
+    + cbn [it_ins]. apply (groups_cons _ _ _ ex_ins [] []); [reflexivity| |constructor].
+      repeat constructor.
+    + constructor.
+    + apply (describe_cons _ [] [out_of 22] [] [] []).
+      * constructor.
+      * cbn [it_outs]. apply (groups_cons _ _ _ [out_of 22] [] []); [reflexivity| |constructor].
+        repeat constructor.
+      * constructor.
+  - apply (witness_of_bool der_serialize _ _ _ (fun T e => vsize T <=? e)). vm_compute. reflexivity.
+Qed.
+
+(* ------------------------------------------------------------------ Part H: exactness *)
+(* a real input uses an announced slot exactly: covered, redeem script of exactly the announced
+   length, and not the one shape whose placeholder is larger than any real input: a non-witness
+   script-hash input announced with an EMPTY redeem script (the estimator pushes the empty
+   placeholder as OP_0, the builder pushes nothing: [empty_redeem_overestimates]) *)
+Definition in_exact (s : ishape) (k : ikind) : bool :=
+  in_covered s k &&
+  match s, k with
+  | SSh w l, KSh _ redeem => (len redeem =? l) && (w || negb (l =? 0))
+  | _, _ => true
+  end.
+
+Lemma exact_trip s i ti :
+  in_exact s (ri_kind i) = true -> sign_input i = Some ti -> sl_of i = 72 -> in_trip ti = ish_trip s.
+Proof.
+  intros X H S. destruct (sign_input_spec i ti H) as (E & _ & _). rewrite E.
+  unfold real_trip, real_trip_with. fold sl_of. rewrite S. clear E H S.
+  unfold in_exact in X. apply andb_prop in X. destruct X as (C & X). unfold in_covered in C.
+  destruct s as [w|w l], (ri_kind i) as [w'|w' redeem]; try discriminate.
+  - apply eqb_prop in C. subst w'. destruct w; reflexivity.
+  - apply andb_prop in X. destruct X as (X1 & X2). apply N.eqb_eq in X1.
+    apply andb_prop in C. destruct C as (C & C3). apply andb_prop in C. destruct C as (C1 & _).
+    apply eqb_prop in C1. subst w'. unfold ish_trip.
+    destruct w; cbn [rkind_of rk_sizes rk_wit fst snd ish_base ish_witsz ish_wit] in *.
+    + now rewrite X1.
+    + assert (P : redeem_push redeem = zeros_push_len l).
+      { destruct redeem as [|b t]; [rewrite len_nil in X1; lia|]. cbn [redeem_push].
+        set (d := b :: t) in *. unfold zeros_push_len.
+        destruct (N.le_gt_cases 2 (len d)) as [G|G].
+        - rewrite cds_ge2 by assumption. rewrite X1. destruct (l =? 1) eqn:E1; [lia|reflexivity].
+        - assert (L1 : len d = 1) by (unfold d in *; rewrite len_cons in *; lia).
+          pose proof (cds_small d ltac:(lia)) as Sm.
+          replace (l =? 1) with true in * by lia. cbn [andb] in C3.
+          destruct (canonical_data_size d =? 2) eqn:E2; [discriminate|]. lia. }
+      now rewrite P.
+Qed.
+
+Lemma existsb_perm {A} (p : A -> bool) a b : Permutation a b -> existsb p a = existsb p b.
+Proof.
+  induction 1; cbn [existsb]; try congruence.
+  now destruct (p x), (p y).
+Qed.
+Lemma L_sizes_perm a a' o o' : Permutation a a' -> Permutation o o' -> L_sizes a o = L_sizes a' o'.
+Proof.
+  intros Pa Po. unfold L_sizes. f_equal.
+  - unfold len. now rewrite (Permutation_length Pa).
+  - unfold len. now rewrite (Permutation_length Po).
+  - apply sumN_perm. now apply Permutation_map.
+  - apply sumN_perm. now apply Permutation_map.
+  - apply sumN_perm. now apply Permutation_map.
+  - now apply existsb_perm.
+Qed.
+Lemma Forall2_map_eq {A B C} (f : A -> C) (g : B -> C) la lb :
+  Forall2 (fun a b => f a = g b) la lb -> map f la = map g lb.
+Proof. induction 1; cbn [map]; congruence. Qed.
+
+(* tightness as a theorem: whenever every announced slot is used exactly and every signature
+   has the maximal 72-byte encoding, the estimate IS the virtual size (the weights are equal,
+   so no rounding slack) *)
+Theorem estimate_exact_for_maximal_signatures ops ins outs T e :
+  estimate ops = VOk e -> build ins outs = Some T ->
+  (exists ss, Permutation ss (shape_ins ops) /\ Forall2 (fun s i => in_exact s (ri_kind i) = true) ss ins) ->
+  (exists os, Permutation os (shape_outs ops) /\ Forall2 (fun s o => len (to_script o) = oshape_len s) os outs) ->
+  Forall (fun i => len (sig_bytes_with der_serialize i) = 72) ins ->
+  vsize T = e.
+Proof.
+  intros He Hb (ss & Pi & Fi) (os & Po & Fo) S.
+  apply estimate_shapes in He. subst e.
+  destruct (build_with_spec _ _ _ _ Hb) as (l & -> & Fl).
+  assert (H32 : Forall hash32 l).
+  { clear -Fl. induction Fl; constructor; auto. now destruct (sign_input_spec _ _ H) as (_ & ? & _). }
+  rewrite vsize_mk by assumption. f_equal. unfold shape_sizes.
+  assert (Ei : map in_trip l = map ish_trip ss).
+  { clear -Fi Fl S. revert l Fl. induction Fi as [|s i ss ins X Fi IH]; intros l Fl; inversion Fl; subst; [reflexivity|].
+    inversion S; subst. cbn [map]. f_equal; [|now apply IH].
+    eapply exact_trip; eauto. }
+  assert (Eo : map out_len outs = map oshape_len os).
+  { symmetry. apply Forall2_map_eq. eapply Forall2_imp; [|exact Fo]. intros s o H. unfold out_len. now rewrite H. }
+  rewrite Ei, Eo. apply L_sizes_perm; now apply Permutation_map.
+Qed.
+
+(* the premises hold of [tight_ops] / [tight_ins] / [tight_outs] *)
+Example exact_premises_satisfiable :
+  (exists ss, Permutation ss (shape_ins tight_ops)
+              /\ Forall2 (fun s i => in_exact s (ri_kind i) = true) ss tight_ins) /\
+  (exists os, Permutation os (shape_outs tight_ops)
+              /\ Forall2 (fun s o => len (to_script o) = oshape_len s) os tight_outs) /\
+  Forall (fun i => len (sig_bytes_with der_serialize i) = 72) tight_ins.
+Proof.
+  split; [|split].
+  - exists [SSh false 126; SPkh true; SSh true 126; SPkh false]. split.
+    + change (shape_ins tight_ops) with [SPkh true; SPkh false; SSh true 126; SSh false 126].
+      apply Permutation_sym.
+      apply (Permutation_cons_app [SSh false 126] [SSh true 126; SPkh false]). 
+      apply (Permutation_cons_app [SSh false 126; SSh true 126] []). cbn [app].
+      apply perm_swap.
+    + repeat constructor.
+  - exists (shape_outs tight_ops). split; [apply Permutation_refl|]. repeat constructor.
+  - repeat constructor.
+Qed.
+
+(* the excluded shape: announced as a non-witness script-hash input with an empty redeem
+   script, the estimate is STRICTLY larger (by one vbyte) than the transaction of exactly that
+   shape with a maximal signature *)
+Example empty_redeem_overestimates :
+  exists T e, build [mk_rin (KSh false []) r33 s_low32] [out_of 22] = Some T /\
+              estimate [OShIn 1 0 false; OPkhOut 1 true] = VOk e /\
+              ((vsize T + 1 =? e) && in_covered (SSh false 0) (KSh false [])
+               && forallb (fun i => len (sig_bytes_with der_serialize i) =? 72) [mk_rin (KSh false []) r33 s_low32]) = true.
+Proof. apply (witness_of_bool der_serialize). vm_compute. reflexivity. Qed.
